@@ -575,6 +575,44 @@ def routeNet (m : Machine) (src : Chip) (dests : List Chip) (radius : Nat) (t : 
     let leaves ← attachSinks f0 sinks
     pure { wrap, ner := f0, repaired := false, copy := none, paths := [], forest := f0, root := src, leaves }
 
+/-! ### route (all nets of one call) -/
+
+/-- one net of a `route()` call: chips of the source and of the sinks (iteration order of the destination
+set), the processing order of its broken links (oracle input), its sink vertices; the radius is that of the
+call -/
+structure NetIn where
+  src : Chip
+  dests : List Chip
+  radius : Nat
+  order : List (Chip × Chip)
+  sinks : List Sink
+  deriving Repr
+
+/-- the oracle tape after the draws of one net (only `ner_net` draws) -/
+def tapeAfter (m : Machine) (n : NetIn) (t : Tape) : Tape :=
+  match nerNet n.src n.dests m.w m.h (hasWrap m) n.radius t with
+  | .ok (_, t') => t'
+  | .error _ => []
+
+/-- `for net in nets` of `route()`: the body is run for each net in turn; nothing but the random stream (the
+oracle tape) is carried from one net to the next; the first failing net fails the call -/
+def routeNets (m : Machine) (legacy : Bool) : List NetIn → Tape → Except Err (List Result)
+  | [], _ => pure []
+  | n :: rest, t => do
+    let r ← routeNet m n.src n.dests n.radius t n.order n.sinks legacy
+    let rs ← routeNets m legacy rest (tapeAfter m n t)
+    pure (r :: rs)
+
+/-- the same loop, keeping the results of the nets before the first failure (what the driver reports) -/
+def routeNetsRun (m : Machine) (legacy : Bool) : List NetIn → Tape → List Result × Option Err
+  | [], _ => ([], none)
+  | n :: rest, t =>
+    match routeNet m n.src n.dests n.radius t n.order n.sinks legacy with
+    | .error e => ([], some e)
+    | .ok r =>
+      let (rs, e) := routeNetsRun m legacy rest (tapeAfter m n t)
+      (r :: rs, e)
+
 /-! ### trees and the specification -/
 
 inductive Tree where
@@ -816,6 +854,14 @@ def jErrE (e : Err) : Json := jErr e.name
 def jCopy (cs : CopyState) : Json :=
   Json.mkObj [("lookup", jForest cs.lookup), ("broken", jPairs cs.broken), ("root", jOpt jChip cs.root)]
 
+def jResult (m : Machine) (sinks : List Sink) (r : Result) : Json :=
+  let tree := toTree r.forest r.leaves (r.forest.length + 1) r.root
+  Json.mkObj [("wrap", Json.bool r.wrap), ("ner", jForest r.ner),
+    ("repaired", Json.bool r.repaired), ("copy", jOpt jCopy r.copy),
+    ("paths", jList (r.paths.map jPath)), ("forest", jForest r.forest), ("root", jChip r.root),
+    ("leaves", jLeaves r.leaves),
+    ("model_valid", jOpt (fun t => Json.bool (validTree m r.root sinks t)) tree)]
+
 def handle (op : String) (j : Json) : R Json := do
   match op with
   | "machine" =>
@@ -855,14 +901,20 @@ def handle (op : String) (j : Json) : R Json := do
       | none => pure []
     match routeNet m (← chipOfJson (← field j "source")) (← (← arr j "dests").mapM chipOfJson)
         (← nat j "radius") (← ints j "tape") order sinks (← bool j "legacy") with
-    | .ok r =>
-      let tree := toTree r.forest r.leaves (r.forest.length + 1) r.root
-      pure (jOk (Json.mkObj [("wrap", Json.bool r.wrap), ("ner", jForest r.ner),
-        ("repaired", Json.bool r.repaired), ("copy", jOpt jCopy r.copy),
-        ("paths", jList (r.paths.map jPath)), ("forest", jForest r.forest), ("root", jChip r.root),
-        ("leaves", jLeaves r.leaves),
-        ("model_valid", jOpt (fun t => Json.bool (validTree m r.root sinks t)) tree)]))
+    | .ok r => pure (jOk (jResult m sinks r))
     | .error e => pure (jErrE e)
+  | "route_nets" =>
+    let m ← machineOfJson j
+    let radius ← nat j "radius"
+    let nets ← (← arr j "nets").mapM fun nj => do
+      let order ← match ← opt nj "order" pairsOfJson with
+        | some o => pure o
+        | none => pure []
+      pure ({ src := ← chipOfJson (← field nj "source"), dests := ← (← arr nj "dests").mapM chipOfJson,
+              radius := radius, order := order, sinks := ← (← arr nj "sinks").mapM sinkOfJson } : NetIn)
+    let (rs, e) := routeNetsRun m (← bool j "legacy") nets (← ints j "tape")
+    pure (Json.mkObj [("results", jList ((nets.zip rs).map fun nr => jResult m nr.1.sinks nr.2)),
+      ("err", jOpt (fun e => Json.str e.name) e)])
   | "path_ok" =>
     let m ← machineOfJson j
     pure (Json.bool (pathOk m (← (← arr j "sources").mapM chipOfJson) (← chipOfJson (← field j "sink"))
